@@ -96,7 +96,12 @@ Seeds == <<
   Rec("_", <<Fld("_", S("int")), Fld("a1_", Enum("_E9", <<S("_"), S("a_1")>>))>>),
   Arr(Rec("R", <<Fld("a", Arr(S("R"))), Fld("m", Map(S("R")))>>)),
   Map(Un(<<S("null"), Rec("x.R", <<Fld("a", S("long"))>>), Fixed("x.F", 3)>>)),
-  Rec("R", <<Fld("a", Rec("A", <<Fld("f", Fixed("F", 1))>>)), Fld("b", Rec("B", <<Fld("g", S("F")), Fld("h", S("A"))>>))>>)
+  Rec("R", <<Fld("a", Rec("A", <<Fld("f", Fixed("F", 1))>>)), Fld("b", Rec("B", <<Fld("g", S("F")), Fld("h", S("A"))>>))>>),
+  (* 47-49 a record explicitly in the NULL namespace nested in a namespaced one: its un-namespaced children and short
+     references belong to the null namespace, so "Leaf" inside it and "x.Leaf" outside it are different names *)
+  Rec("x.Outer", <<Fld("i", RecNs("Inner", "", <<Fld("l", Fixed("Leaf", 1)), Fld("r", S("Leaf"))>>)), Fld("o", Fixed("Leaf", 2)), Fld("p", S("x.Leaf"))>>),
+  Rec("x.Outer", <<Fld("t", Fixed("T", 1)), Fld("i", RecNs("Inner", "", <<Fld("r", S("x.T")), Fld("l", Enum("Leaf", <<S("A")>>)), Fld("m", Arr(S("Leaf")))>>))>>),
+  RecNs("Outer", "x.y", <<Fld("i", RecNs("Inner", "", <<Fld("j", Rec("Deep", <<Fld("k", Fixed("Leaf", 2))>>)), Fld("d", S("Deep"))>>)), Fld("q", Un(<<S("null"), S("Outer")>>))>>)
 >>
 
 SmallSeedIdx == {i \in 1..Len(Seeds) : i \in Deep}
